@@ -25,7 +25,7 @@ ASSUMPTIONS = [
     "present module, and that extraction runs no glue at all",
 ]
 
-KINDS = ["mod", "bi", "both", "none", "raise", "biraise", "nonemod"]
+KINDS = ["mod", "bi", "both", "none", "raise", "biraise", "nonemod", "importer", "importer"]
 
 
 def histories():
@@ -48,9 +48,11 @@ def schedules():
 
 def check_history(ws, interps, case, out, ctx_open):
     viols = []
+    hist_stats = {}
     for interp in interps:
         try:
             res = ws[interp].request({"op": "glue.history", "ops": case["ops"]})
+            hist_stats = res.get("stats", {})
         except WorkerDied as ex:
             viols.append({"desc": "interpreter %s died (exit %r)" % (interp, ex.returncode), "interp": interp})
             continue
@@ -68,7 +70,10 @@ def check_history(ws, interps, case, out, ctx_open):
     nrem = sum(1 for o in case["ops"] if o[0] == "remove")
     next_ = sum(1 for o in case["ops"] if o[0] == "extract")
     classes = ["history"] + ["op." + o[0] for o in case["ops"]] + ["kind." + o[2] for o in case["ops"] if o[0] == "add"]
-    out.note_case(case, nrem >= 1 and next_ >= 2, classes=sorted(set(classes)), n_eval=len(interps))
+    if hist_stats.get("extract_after_insertion_by_glue"):
+        classes.append("extraction_after_a_glue_function_inserted_a_glue_bearing_module")
+    out.note_case(case, (nrem >= 1 and next_ >= 2) or hist_stats.get("extract_after_insertion_by_glue", 0) > 0,
+                  classes=sorted(set(classes)), n_eval=len(interps))
     return viols
 
 
